@@ -13,7 +13,7 @@ T=$(cargo test --workspace --no-fail-fast --offline 2>&1 | grep -E "^test result
 echo "RESULT $TAG baseline-tests: $T"
 export VERIF_REPO="$WT" VERIF_ALT_DIR=/tmp/seedrun/alt-$TAG
 for C in "$@"; do
-  OUT=$(cd /verif && ./check run "$C" quick 2>/dev/null | grep -E "^(OK|VIOLATION|INCONCLUSIVE|KNOWN|  what)" | head -4 | cut -c1-400)
+  OUT=$(cd ${VERIF_HOME:-/verif} && ./check run "$C" quick 2>/dev/null | grep -E "^(OK|VIOLATION|INCONCLUSIVE|KNOWN|  what)" | head -4 | cut -c1-400)
   echo "RESULT $TAG $C :: $(echo "$OUT" | tr '\n' ' ')"
 done
 cd /
